@@ -234,10 +234,16 @@ def run_impl(case):
     def _rec(t, i, r, a):
         events.append((i, list(r), list(a)))
         held.append((r, a, list(r), list(a), None))
+    # the caller keeps the list it passed as `notifiers` and changes it afterwards: what is notified is the
+    # list's contents at construction time (`notifiers : list of callable`, copied by the constructor)
+    spy_calls = []
+    caller_list = [_rec]
     try:
-        tl = TraitList(init, item_validator=v, notifiers=[_rec])
+        tl = TraitList(init, item_validator=v, notifiers=caller_list)
     except Exception as e:
         return "err " + S.exc_name(e), [], ["init-err"]
+    caller_list.append(lambda t, i, r, a: spy_calls.append(i))
+    del caller_list[0]
     shadow = list(tl)  # builtin list run on validated items
     for op in ops:
         k = op[0]
@@ -359,4 +365,7 @@ def run_impl(case):
             ix, removed, added = events[0]
             ev = "E %s %s %s" % (S.show_index(ix), S.show_list(removed), S.show_list(added))
         outs.append("ok %s %s %s" % (S.show_list(after), "-" if ret is None else ret, ev))
+    if spy_calls:
+        hits.append(_hit("notifier-list-aliases-caller-list", "a notifier appended to the caller's own list after construction was called "
+                         "(the TraitList shares the list object passed as `notifiers`)", calls=len(spy_calls)))
     return " ; ".join(outs), hits, tags
